@@ -67,8 +67,10 @@ ASSUMPTIONS = [
     "dotted SelectContext keys have non-empty components",
     "class selectors are int, str, list and the data are exact instances (no subclasses, no bool)",
     "results are compared by truth value, exceptions by type only",
-    "OR / AND may short-circuit from the left or evaluate every item: an exception raised by an item "
-    "that a short-circuit evaluation would not reach is accepted as well (raise_on_error=True only)",
+    "OR (a list) is short-circuit from the left, as Or documents ('if a selector was true, further ones are "
+    "not applied'): an item after the first true one must not make the selector raise. AND (a tuple) documents "
+    "nothing about it and may short-circuit from the left or evaluate every item: an exception raised by an "
+    "item of a tuple that a short-circuit evaluation would not reach is accepted as well (raise_on_error=True only)",
     "with sub-selectors that carry their own raise_on_error both readings are accepted: the exception "
     "counts as 'not selected' at the leaf, or at the innermost enclosing raise_on_error=False node",
     "And/Or objects called directly with raise_on_error=False around pre-built raise_on_error=True "
@@ -1514,7 +1516,7 @@ LEVEL_TEXT = ("bounded exhaustive exploration: every selector specification of a
               "{'', a, b, a.b, a.c, a.b.c} is executed on every ordered pair of a 124-context depth-3 "
               "family and judged by the longest-listed-prefix rule")
 LEVEL_NOTE = ("holds for the enumerated alphabets only; truth values and exception types are compared; "
-              "where the statement leaves a choice (short-circuit vs eager OR/AND, empty projected "
+              "where the statement leaves a choice (short-circuit vs eager AND - OR is documented short-circuit -, empty projected "
               "sub-dictionaries, a specification list edited after a selector was built from it) both "
               "readings are accepted")
 TECHNIQUE = ("exhaustive enumeration of specifications x values (selectors) and key-set assignments x "
